@@ -567,6 +567,19 @@ def c14_extra(tier, seed, ctx):
             "pv_moves_checked": len(queries), "ok": not violations}
 
 
+# ------------------------------------------------------------------------------------------------
+# C01: the rules spec itself against published perft numbers (a labelled test of the oracle, not a proof)
+
+def c01_extra(tier, seed, ctx):
+    r = subprocess.run([ctx["driver"], "perft"], capture_output=True, text=True, timeout=900)
+    mm = [l for l in r.stdout.splitlines() if l.startswith("MISMATCH")]
+    summ = next((json.loads(l[8:]) for l in r.stdout.splitlines() if l.startswith("SUMMARY ")), {})
+    return {"violations": [], "model_mismatches": [{"class": "model", "props": "C01", "kind": "spec-perft", "raw": l} for l in mm],
+            "evaluations": summ.get("perft_entries", 0), "distinct_nontrivial": summ.get("perft_entries", 0),
+            "samples": [f"rules spec reproduces {summ.get('perft_entries', 0)} published perft values ({summ.get('perft_nodes', 0)} leaf nodes)"],
+            "spec_perft_nodes": summ.get("perft_nodes", 0), "ok": not mm and bool(summ)}
+
+
 if __name__ == "__main__":
     ctx = {"engine": "/verif/engine-target/release/rust_chess_engine", "driver": "/verif/lean/.lake/build/bin/driver"}
     which = sys.argv[1]
